@@ -40,15 +40,31 @@ def resolve_real(c: Contract):
     return obj, "function"
 
 
+def deep(x):
+    """deepcopy that also copies objects refusing to be pickled (non-shared caches define __getstate__ to raise)."""
+    try:
+        return copy.deepcopy(x)
+    except Exception:  # noqa: BLE001
+        if isinstance(x, dict):
+            return {k: deep(v) for k, v in x.items()}
+        if isinstance(x, (list, tuple)):
+            return type(x)(deep(v) for v in x)
+        if hasattr(x, "__dict__"):
+            y = object.__new__(type(x))
+            y.__dict__.update({k: deep(v) for k, v in x.__dict__.items()})
+            return y
+        return x
+
+
 def check_concrete(c: Contract, fn: Callable, args: dict, call: Callable | None = None) -> dict:
     """Evaluate the contract on the real function for concrete arguments."""
-    pre = SimpleNamespace(**copy.deepcopy(args))
+    pre = SimpleNamespace(**deep(args))
     try:
         if c.requires and not all(bool(v) for v in c.requires(CONC, pre).values()):
             return {"skipped": "requires"}
     except Exception as e:  # noqa: BLE001
         return {"skipped": f"requires raised {type(e).__name__}"}
-    live = copy.deepcopy(args)
+    live = deep(args)
     exc = None
     r = None
     try:
